@@ -492,17 +492,30 @@ def clause10_failure_exits_agree(ctx, P, cg, own):
             if ok_store_pos is None:
                 continue
             prm = root(P.term(f, stores[0].a[1]))
-            cleaned = False
-            for k, i in v.calls():
-                if k <= ok_store_pos:
-                    continue
+
+            def releases(i):
+                if i.op != "call":
+                    return False
                 for a in i.a:
                     ta = P.term(f, a)
                     if ta == prm or (ta[0] == "load" and root(ta) == prm):
                         nm = P.srcname_of(i.callee) if i.callee else ""
                         if nm in ("cjet_free", "free") or (i.callee in P.functions and P.own(P.functions[i.callee]) and
                                                           any(P.srcname_of(x) in ("cjet_free", "free") for x in cg.reach(i.callee))):
-                            cleaned = True
+                            return True
+                return False
+            cleaned = any(k > ok_store_pos and releases(i) for k, i in v.calls())
+            if not cleaned:
+                # the clean-up written out as a loop (a helper spliced in): the path enters a loop whose body releases, even if
+                # this particular path takes zero iterations or meets an empty slot
+                started = False
+                pos = 0
+                for b in v.blocks:
+                    if started and any(b == h and any(releases(i) for bb in body for i in f.blocks[bb]) for h, body in f.loops().items()):
+                        cleaned = True
+                    pos += sum(1 for i in f.blocks[b] if i.op != "phi")
+                    if pos > ok_store_pos:
+                        started = True
             (with_cleanup if cleaned else without).append(v)
         if with_cleanup or without:
             bad = without[0] if (with_cleanup and without) else None
